@@ -64,7 +64,29 @@ fn ma_stream(spec: &Spec, decimal: bool) -> BoxedStrategy<Vec<Rat>> {
 }
 
 fn base_strategy(decimal: bool) -> impl Fn(Tier) -> BoxedStrategy<Case> + Send + Sync {
-    move |_tier: Tier| ma_spec().prop_flat_map(move |(spec, _)| ma_stream(&spec, decimal).prop_map(move |xs| Case::of(spec.clone(), xs))).boxed()
+    move |tier: Tier| {
+        let short = ma_spec().prop_flat_map(move |(spec, _)| ma_stream(&spec, decimal).prop_map(move |xs| Case::of(spec.clone(), xs)));
+        // one case in eight is a long history (300..1200 values) over a small window: defects that need hundreds of updates
+        let long = ma_spec().prop_flat_map(move |(spec, _)| {
+            let spec = shrink_window(&spec, 8);
+            let n = window_of(&spec);
+            let sc = if decimal { Rat(1, 100) } else { Rat(1, 8) };
+            gen::long_stream(StreamCfg::new(n).scale(sc).kmax(512), 300, tier.pick(700, 4000)).prop_map(move |xs| Case::of(spec.clone(), xs))
+        });
+        prop_oneof![15 => short, 1 => long].boxed()
+    }
+}
+/// same view with its window reduced to at most `cap` (keeps long exact runs cheap)
+fn shrink_window(s: &Spec, cap: usize) -> Spec {
+    let m = |n: usize| 1 + (n - 1) % cap;
+    match s {
+        Spec::Sma(a, n) => Spec::Sma(a.clone(), m(*n)),
+        Spec::Ema(a, n) => Spec::Ema(a.clone(), m(*n)),
+        Spec::EmaAlpha(a, n, al) => Spec::EmaAlpha(a.clone(), m(*n), al * (m(*n) as f64 + 1.0) / (*n as f64 + 1.0)),
+        Spec::Alma(a, n) => Spec::Alma(a.clone(), m(*n)),
+        Spec::AlmaCustom(a, n, x, y) => Spec::AlmaCustom(a.clone(), m(*n), *x, *y),
+        o => o.clone(),
+    }
 }
 
 fn span_of(spec: &Spec, h: &[R], t: usize) -> (R, R) {
@@ -141,7 +163,9 @@ fn constant_case(decimal: bool) -> impl Fn(Tier) -> BoxedStrategy<Case> + Send +
             .prop_map(|((spec, _), k, sc, mult)| {
                 let n = window_of(&spec);
                 let c = Rat(k * sc.0, sc.1);
-                Case::of(spec, vec![c; mult * n + 3])
+                // every fifth case is a long constant stream (defects that need hundreds of updates)
+                let len = if k % 5 == 0 { 300 + (k.unsigned_abs() as usize % 700) } else { mult * n + 3 };
+                Case::of(spec, vec![c; len])
             })
             .boxed()
     }
